@@ -13,6 +13,7 @@ EXPLANATION = ("C15: NNG_FLAG_NONBLOCK is plumbed to a zero timeout and mapped b
                "pollable's readiness is computed from re-evaluates that pollable after the last such mutation; pollable "
                "raise/clear only write the notification pipe on a state change."
                " Also: a pollable is cleared only under a test of what it stands for (R5) and every locked change of a msgq re-evaluates its descriptors (R6).")
+EXPLANATION += " Round 3: a descriptor is lowered only with every conjunct of its not-ready predicate established, and only for the socket's own context (R7); a zero timeout is never replaced (R8)."
 
 OP_SLOTS = ("nni_proto_sock_ops.sock_send", "nni_proto_sock_ops.sock_recv", "nni_proto_ctx_ops.ctx_send",
             "nni_proto_ctx_ops.ctx_recv")
@@ -798,9 +799,80 @@ def rule_r6(ctx):
         raise AnalysisBroken("only %d queue mutations under mq_lock found" % n)
 
 
+
+# ---------------------------------------------------------------------------
+# R8: nobody replaces a zero timeout
+
+_CMP = {"<": lambda a, b: a < b, "<=": lambda a, b: a <= b, ">": lambda a, b: a > b, ">=": lambda a, b: a >= b,
+        "==": lambda a, b: a == b, "!=": lambda a, b: a != b}
+
+
+def rule_r8(ctx):
+    r = ctx.rule("C15.R8", "T1", "a zero timeout stays zero: a function that is handed the caller's aio changes its timeout or expiry "
+                 "(nni_aio_set_expire / nni_aio_set_timeout, or a store to a_timeout) only on paths whose conditions exclude a "
+                 "timeout of 0 -- NNG_FLAG_NONBLOCK is a zero timeout, and an operation whose timeout was replaced waits instead "
+                 "of answering NNG_EAGAIN", floor=2)
+    prog = ctx.prog
+    n = 0
+    for f in prog.functions:
+        if f.cfg_failed or f.file.endswith("_test.c") or "testing/" in f.file or f.file.endswith("src/nng.c") or f.name in (
+                "nni_aio_set_timeout", "nni_aio_set_expire", "nng_aio_set_timeout", "nng_aio_set_expire", "nni_aio_init"):
+            continue
+        params = {p_["n"] for p_ in f.params if "aio" in (p_.get("t") or "")}
+        if not params:
+            continue
+        sites = []
+        for c in f.calls(("nni_aio_set_expire", "nni_aio_set_timeout")):
+            a = f.expand(c.node["args"][0]) if c.node["args"] else None
+            if a is not None and a.get("k") == "var" and a["n"] in params:
+                sites.append((c, a["n"], show(c.node)[:50]))
+        for t in f.assigns():
+            l = t.node["lhs"]
+            if l.get("k") == "mem" and l.get("f") == "a_timeout" and l.get("b") is not None:
+                b = f.expand(l["b"])
+                if b is not None and b.get("k") == "var" and b["n"] in params:
+                    sites.append((t, b["n"], show(t.node)[:50]))
+        if not sites:
+            continue
+        facts = G.edge_facts(f)
+
+        def is_timeout(e, aio):
+            e = G.resolve(f, e, (f.entry, 0)) if e is not None and e.get("k") == "var" else e
+            if e is None:
+                return False
+            if e.get("k") == "call" and e.get("fn") in ("nni_aio_get_timeout", "nng_aio_get_timeout"):
+                return True
+            return e.get("k") == "mem" and e.get("f") == "a_timeout"
+        for site, aio, txt in sites:
+            n += 1
+            excl = {}
+            for bid, k, atom, val in facts:
+                if atom.get("k") != "bin" or atom.get("op") not in _CMP:
+                    continue
+                for lhs, rhs, op in ((atom["lhs"], atom["rhs"], atom["op"]),
+                                     (atom["rhs"], atom["lhs"], {"<": ">", ">": "<", "<=": ">=", ">=": "<="}.get(atom["op"], atom["op"]))):
+                    cv = const_of(rhs)
+                    tl = lhs
+                    if tl.get("k") == "var":
+                        ds = [d for _, d in G.var_defs(f, tl["n"])]
+                        tl = ds[0] if len(ds) == 1 and ds[0] is not None else tl
+                    if cv is not None and is_timeout(tl, aio):
+                        if _CMP[op](0, cv) != bool(val):
+                            excl[bid] = k       # this edge cannot be taken with a timeout of 0
+            if excl and G.dominated(f, (site.b, site.i), excl):
+                r.ob(f, "%s line %s: only on paths that exclude a zero timeout" % (txt, site.line))
+            else:
+                ctx.fail(r, f, "%s reachable with a zero timeout" % txt.split("(")[0], site.line,
+                         "%s replaces the caller's timeout at line %s (%s) on a path that a timeout of 0 can take: a non-blocking "
+                         "call then waits for the new deadline instead of failing at once with NNG_EAGAIN" % (f.name, site.line, txt))
+    if n < 2:
+        raise AnalysisBroken("only %d places change the timeout of a caller's aio" % n)
+
+
 def run(ctx):
     ctx.guard(rule_a6)
     ctx.guard(rule_r4)
     ctx.guard(rule_r5)
     ctx.guard(rule_r6)
     ctx.guard(rule_r7)
+    ctx.guard(rule_r8)
